@@ -159,6 +159,9 @@ pub fn big(kind: &str, n: usize) {
         "named" => (0..n).map(|i| format!("(?<n{}>a)", i)).collect::<Vec<_>>().join(""),
         "dupnamed" => (0..n).map(|_| "(?<n>a)".to_string()).collect::<Vec<_>>().join("|"),
         "catnest" => format!("{}{}", "(?:a".repeat(n), ")".repeat(n)),
+        // counted loops nested n deep around a literal: the optimizer may unroll each level once, not re-unroll what it merged
+        "countnest" => format!("{}a{{5}}{}", "(?:".repeat(n), "){5}".repeat(n)),
+        "countnest2" => format!("{}ab{{2,3}}{}", "(?:".repeat(n), "){2}".repeat(n)),
         "altnest" => format!("{}a{}", "(?:b|".repeat(n), ")".repeat(n)),
         _ => panic!("unknown kind"),
     };
